@@ -110,6 +110,7 @@ def stream_labels(items):
 
 def check_direct(case):
     """case: {"items": [{"spec", "choices"}...]}"""
+    case = streams.rename_case(case)
     client = make_client()
     ref = refclient.RefClient()
     for i, it in enumerate(case["items"]):
@@ -147,6 +148,7 @@ SENTINEL = {"kind": "defTextVector", "attrs": {"device": "SENTINEL", "name": "LA
 
 def check_stream(case):
     """case: {"items": [...], "frag": [ints], "for_blobs": bool}"""
+    case = streams.rename_case(case)
     from indi.transport.client.tcp import ConnectionHandler
 
     loop = net.new_loop()
@@ -192,8 +194,9 @@ def check_stream(case):
 direct_case = st.fixed_dictionaries({
     "items": streams.stream(40),
     "writes": st.lists(st.fixed_dictionaries({"at": st.integers(0, 40), "k": st.integers(0, 30), "submit": st.booleans()}), max_size=3),
+    "rename": st.sampled_from([0, 0, 0, 1, 2]),
 })
-stream_case = st.fixed_dictionaries({"items": streams.stream(25), "frag": st.lists(st.sampled_from([1, 2, 3, 7, 64, 1024]), min_size=1, max_size=4), "for_blobs": st.booleans()})
+stream_case = st.fixed_dictionaries({"rename": st.sampled_from([0, 0, 0, 1, 2]), "items": streams.stream(25), "frag": st.lists(st.sampled_from([1, 2, 3, 7, 64, 1024]), min_size=1, max_size=4), "for_blobs": st.booleans()})
 
 SUBCHECKS = {"direct": check_direct, "stream": check_stream}
 
